@@ -77,7 +77,9 @@ RandRowsWhy(op, size, perm) ==
          \cup (IF perm /\ RowsExist(R[i]) /\ ~SameBag(RowIds(R[i]), st.rr) THEN {"not-a-permutation"} ELSE {}) : i \in 1..Len(R)}
 
 Check ==
-  CASE O.op = "view"    -> One(OpView(st, PolOf(R[1])))
+  CASE MustRefuse(O.op, st, O.a) -> Res({"must-be-refused"}, st)      \* it returned although no result is admissible
+    [] O.op = "chunk" /\ O.a = 0 -> Res(CountIs(0), st)                \* chunks of size 0: refused or no chunk at all
+    [] O.op = "view"    -> One(OpView(st, PolOf(R[1])))
     [] O.op = "split"   -> Many(2, LAMBDA i : OpSplit(st, O.a, O.b, i - 1, PolOf(R[i])))
     [] O.op = "shuffle" -> LET r == RandRows("shuffle", N(st), TRUE) IN Res(r.why \cup RandRowsWhy("shuffle", N(st), TRUE), r.next)
     [] O.op = "boots"   -> LET r == RandRows("boots", O.a, FALSE) IN Res(r.why \cup RandRowsWhy("boots", O.a, FALSE), r.next)
@@ -133,17 +135,18 @@ TEnd  == HasEv("end") /\ last \in {"init", "op"} /\ depth = Len(Prog) /\ Adv(st,
 \* the harness did not call the operation because the Rust type does not offer it
 TNa   == HasEv("na") /\ last \in {"init", "op"} /\ depth < Len(Prog) /\ Ev.i = depth /\ Ev.op = O.op
          /\ ~Applicable(O.op, st.ty, NT(st)) /\ Adv(st, "done", depth)
-\* the harness stopped: no result to continue with / bootstrap of an empty dataset is not attempted
+\* the harness stopped: no result to continue with / bootstrap_features of an empty dataset is not attempted
 TStop == /\ HasEv("stop")
          /\ \/ Ev.why = "nores" /\ last = "nores"
             \/ Ev.why = "empty" /\ last \in {"init", "op"} /\ depth < Len(Prog) /\ Ev.i = depth /\ Ev.op = O.op
-               /\ O.op \in {"boot", "boots", "bootf"} /\ N(st) = 0
+               /\ O.op = "bootf" /\ N(st) = 0
          /\ Adv(st, "done", depth)
 \* documented panic: the owned split_with_ratio requires row-major records (bootstrap_features / bootstrap
 \* return column-major records)
 TDocPanic ==
   /\ HasEv("panic") /\ last \in {"init", "op"} /\ depth < Len(Prog) /\ Ev.i = depth /\ Ev.op = O.op
-  /\ O.op = "split" /\ st.ty.r = "O" /\ ~Ev.std
+  /\ \/ O.op = "split" /\ st.ty.r = "O" /\ ~Ev.std
+     \/ MayRefuse(O.op, st, O.a)            \* into_single_target of t # 1 columns (documented), nothing to draw from, size 0
   /\ Adv(st, "done", depth)
 
 Accept ==
